@@ -15,7 +15,8 @@ package uniprot
 //   io/uniprot.Parse/terminates           the consumer is never left blocked
 //                                         (every case of the other clauses)
 //   io/uniprot.Read/post/gzip             the first clause through Read on a
-//                                         gzip temp file
+//                                         gzip temp file, single-member and
+//                                         multi-member
 //
 // Every call of Parse/Read happens in a child process (this test binary
 // re-executed with -test.run=^TestVerifC20Child$) under an address-space limit
@@ -63,6 +64,8 @@ type c20Num struct {
 	SeqVersion  int // <sequence version="...">
 	FeatureEnd  int // adds a chain feature 1..FeatureEnd and a single-position feature at FeatureEnd
 	EvidenceKey int // adds <evidence key="..."> and refers to it from the features
+	// xsd:date attributes (YYYY-MM-DD); "" keeps the layout's own date
+	Created, Modified, SeqModified string
 }
 
 type c20Doc struct {
@@ -121,7 +124,14 @@ func c20Build(rng *rand.Rand, ents []c20Ent, rich bool) c20Doc {
 			if e.num != nil && e.num.Version != 0 {
 				version = e.num.Version
 			}
-			b.WriteString("<entry dataset=\"Swiss-Prot\" created=\"2009-05-05\" modified=\"2020-08-12\" version=\"" + strconv.Itoa(version) + "\"")
+			created, modified := "2009-05-05", "2020-08-12"
+			if e.num != nil && e.num.Created != "" {
+				created = e.num.Created
+			}
+			if e.num != nil && e.num.Modified != "" {
+				modified = e.num.Modified
+			}
+			b.WriteString("<entry dataset=\"Swiss-Prot\" created=\"" + created + "\" modified=\"" + modified + "\" version=\"" + strconv.Itoa(version) + "\"")
 			if rng.Intn(2) == 0 {
 				b.WriteString(" xmlns=\"http://uniprot.org/uniprot\"")
 			}
@@ -152,7 +162,10 @@ func c20Build(rng *rand.Rand, ents []c20Ent, rich bool) c20Doc {
 			if rng.Intn(3) == 0 {
 				b.WriteString("  <!-- a comment -->\n  <keyword id=\"KW-1185\">Reference proteome</keyword>\n")
 			}
-			seqVersion := 1
+			seqVersion, seqModified := 1, "2009-05-05"
+			if e.num != nil && e.num.SeqModified != "" {
+				seqModified = e.num.SeqModified
+			}
 			if e.num != nil {
 				ev := ""
 				if e.num.EvidenceKey != 0 {
@@ -169,7 +182,7 @@ func c20Build(rng *rand.Rand, ents []c20Ent, rich bool) c20Doc {
 					seqVersion = e.num.SeqVersion
 				}
 			}
-			b.WriteString("  <sequence length=\"" + strconv.Itoa(len(e.Seq)) + "\" mass=\"" + strconv.Itoa(110*len(e.Seq)) + "\" checksum=\"" + c20Word(rng, "0123456789ABCDEF", 16, 16) + "\" modified=\"2009-05-05\" version=\"" + strconv.Itoa(seqVersion) + "\">" + e.Seq + "</sequence>\n")
+			b.WriteString("  <sequence length=\"" + strconv.Itoa(len(e.Seq)) + "\" mass=\"" + strconv.Itoa(110*len(e.Seq)) + "\" checksum=\"" + c20Word(rng, "0123456789ABCDEF", 16, 16) + "\" modified=\"" + seqModified + "\" version=\"" + strconv.Itoa(seqVersion) + "\">" + e.Seq + "</sequence>\n")
 		} else {
 			b.WriteString("<sequence>" + e.Seq + "</sequence>")
 		}
@@ -271,6 +284,27 @@ func c20Gzip(text []byte) []byte {
 	_, _ = w.Write(text)
 	_ = w.Close()
 	return b.Bytes()
+}
+
+// c20GzipMembers compresses text as a gzip file of several members (RFC 1952,
+// 2.2: "a gzip file consists of a series of members"; what it stands for is the
+// concatenation of what the members hold): one gzip.Writer per piece, the
+// pieces being text[0:cuts[0]], text[cuts[0]:cuts[1]], ..., and, for
+// emptyAt >= 0, a member holding no data in front of piece emptyAt (after the
+// last piece when emptyAt == len(cuts)+1).
+func c20GzipMembers(text []byte, cuts []int, emptyAt int) []byte {
+	var out []byte
+	bounds := append(append([]int{0}, cuts...), len(text))
+	for i := 0; i+1 < len(bounds); i++ {
+		if i == emptyAt {
+			out = append(out, c20Gzip(nil)...)
+		}
+		out = append(out, c20Gzip(text[bounds[i]:bounds[i+1]])...)
+	}
+	if emptyAt == len(bounds)-1 {
+		out = append(out, c20Gzip(nil)...)
+	}
+	return out
 }
 
 // c20Gunzip returns what an independent run of the standard decompressor
@@ -827,6 +861,119 @@ func TestVerifC20(t *testing.T) {
 		rng = saved
 	}
 
+	// (6) both tiers: well-formed documents compressed as a gzip file of SEVERAL
+	// members (what pigz, bgzip or `cat a.gz b.gz` produce): one gzip.Writer per
+	// piece of the XML text, the files concatenated, the member boundaries at
+	// arbitrary byte positions of the XML and at chosen ones (after the first
+	// byte, inside the root start tag, right before and right after an entry,
+	// inside an entry, before the last byte), optionally with a member that holds
+	// no data. The stream is well formed, so all k entries are demanded. Own
+	// stream, added last.
+	nMulti := 0
+	{
+		saved := rng
+		rng = rand.New(rand.NewSource(seed ^ 0x20202020))
+		ks := []int{1, 2, 3, 9, 40}
+		if thorough {
+			ks = []int{1, 2, 3, 4, 5, 9, 20, 40, 100, 200}
+		}
+		for ki, k := range ks {
+			for variant := 0; variant < 8; variant++ {
+				d := c20RandomDoc(rng, k, (ki+variant)%3 != 0, 60)
+				var cuts []int
+				var what string
+				switch variant {
+				case 0:
+					cuts, what = []int{1}, "2 members, boundary after the first byte"
+				case 1:
+					cuts, what = []int{d.rootStartEnd / 2}, "2 members, boundary inside the root start tag"
+				case 2:
+					j := rng.Intn(k)
+					cuts, what = []int{d.start[j]}, fmt.Sprintf("2 members, boundary right before entry %d", j+1)
+				case 3:
+					cuts, what = []int{d.end[0]}, "2 members, boundary right after entry 1"
+				case 4:
+					j := rng.Intn(k)
+					cuts, what = []int{d.start[j] + 1 + rng.Intn(d.end[j]-d.start[j]-1)}, fmt.Sprintf("2 members, boundary inside entry %d", j+1)
+				case 5:
+					cuts, what = []int{d.start[0], d.end[k-1], len(d.text) - 1}, "4 members, boundaries before the first entry, after the last entry and before the last byte"
+				default:
+					m := 2 + rng.Intn(5)
+					seen := map[int]bool{}
+					for len(cuts) < m-1 && len(cuts) < len(d.text)-1 {
+						if c := 1 + rng.Intn(len(d.text)-1); !seen[c] {
+							seen[c] = true
+							cuts = append(cuts, c)
+						}
+					}
+					sort.Ints(cuts)
+					what = fmt.Sprintf("%d members, boundaries at random byte offsets %v", len(cuts)+1, cuts)
+				}
+				emptyAt := -1
+				if variant%4 == 3 || variant == 6 {
+					emptyAt = rng.Intn(len(cuts) + 2)
+					what += fmt.Sprintf(", plus a member without data as member %d", emptyAt+1)
+				}
+				gz := c20GzipMembers(d.text, cuts, emptyAt)
+				if plain, ok := c20Gunzip(gz); !ok || !bytes.Equal(plain, d.text) {
+					t.Fatalf("generator: the standard decompressor does not recover the document from the multi-member file (%s)", what)
+				}
+				addRead(gz, (ki+variant)%2, true, "multi-member-gzip", d.ents, false, "gzip file of "+what+"; "+docDesc(d))
+				nMulti++
+			}
+		}
+		rng = saved
+	}
+
+	// (7) both tiers: well-formed documents in the layout of the real dump in
+	// which ONE entry carries xsd:date attributes on leap days and calendar
+	// edges (created / modified of the entry, modified of its sequence element,
+	// or all three). Valid dates all of them; every entry must come out with its
+	// accessions, names and sequence text. Own stream, added last.
+	nDates := 0
+	{
+		saved := rng
+		rng = rand.New(rand.NewSource(seed ^ 0x2020202020))
+		for di, date := range c20Dates {
+			shape := "calendar-edge-date"
+			if strings.HasSuffix(date, "-02-29") {
+				shape = "leap-day-date"
+			}
+			for pi, place := range []string{"created", "modified", "sequence modified", "all three"} {
+				for _, k := range []int{1, 3} {
+					if k == 1 && place != "all three" && !thorough {
+						continue
+					}
+					j := (di + pi) % k
+					ents := make([]c20Ent, k)
+					for i := range ents {
+						ents[i] = c20NewEnt(rng, 60)
+					}
+					num := c20Num{}
+					if place == "created" || place == "all three" {
+						num.Created = date
+					}
+					if place == "modified" || place == "all three" {
+						num.Modified = date
+					}
+					if place == "sequence modified" || place == "all three" {
+						num.SeqModified = date
+					}
+					ents[j].num = &num
+					d := c20Build(rng, ents, true)
+					desc := fmt.Sprintf("entry %d of %d has the date %s as %s; %s", j+1, k, date, place, docDesc(d))
+					mode := (di + pi + k) % 2
+					addParse(d.text, mode, true, shape, d.ents, false, desc)
+					if k == 3 && place == "all three" {
+						addRead(c20Gzip(d.text), 1-mode, true, shape, d.ents, false, desc)
+					}
+					nDates++
+				}
+			}
+		}
+		rng = saved
+	}
+
 	// ------------------------------------------------------------ observe
 	queues := make([][]c20Case, workers)
 	// damaged cases (which may each cost a full deadline) are spread evenly
@@ -855,13 +1002,16 @@ func TestVerifC20(t *testing.T) {
 	vE := newVerifRun("C20", "io/uniprot.Parse/post/entries", common+
 		fmt.Sprintf("well-formed documents with every k in 0..200 entries (%d seeded document(s) each; 1..3 accessions, 1..2 names, sequence text 1..60 letters; compact layout or the layout of the real dump with prolog, attributes, nested <name> elements, comments, copyright), channel capacities drawn from 0..100 with every capacity 0..100 used on each channel, plus cuts of small documents that lose only trailing white space; "+
 			"plus %d documents in the layout of the real dump with k in {1, 2, 3, 9} entries (large sequences in the quick tier: k = 3 only) of which ONE, in first, middle or last position, carries a large number: entry version in %v (class version-attribute-beyond-255), sequence version in %v (sequence-version-attribute-beyond-255), "+
-			"a sequence of %v letters with its length and mass = 110 x length as attributes (sequence-length-and-mass-large), chain and single-position features ending at that length (feature-position-large), an evidence element with key in %v referred to by two features (evidence-key-large); all k entries with accessions, names and sequence text demanded as for any other document; non-trivial = k >= 1",
-			reps, nLarge, c20LargeVersions, c20LargeSeqVersions, c20LargeSeqLens, c20LargeEvidenceKeys))
+			"a sequence of %v letters with its length and mass = 110 x length as attributes (sequence-length-and-mass-large), chain and single-position features ending at that length (feature-position-large), an evidence element with key in %v referred to by two features (evidence-key-large); all k entries with accessions, names and sequence text demanded as for any other document; "+
+			"plus %d documents in the layout of the real dump with k in {1, 3} entries of which ONE (position rotating) carries a valid xsd:date on a leap day or calendar edge, one of %v, as the created or the modified attribute of the entry, as the modified attribute of its sequence element, or as all three (quick tier: k = 1 only with all three); classes leap-day-date (dates on 29 February) and calendar-edge-date; all k entries demanded as for any other document; non-trivial = k >= 1",
+			reps, nLarge, c20LargeVersions, c20LargeSeqVersions, c20LargeSeqLens, c20LargeEvidenceKeys, nDates, c20Dates))
 	vD := newVerifRun("C20", "io/uniprot.Parse/post/damaged-prefix", common+
 		fmt.Sprintf("%d small document(s) (<= 3 entries; compact, without XML declaration in the quick tier) cut at EVERY byte offset before the end of the root element (exhaustive, %s), and, in both tiers, one small document (2 entries, "+strconv.Itoa(len(prologDoc.text))+" bytes) that starts with an XML declaration, a newline, a comment '<!-- comment -->' and a newline before the <uniprot ...> root, also cut at EVERY byte offset, so that cuts inside and right after the declaration, inside and right after the comment, in the white space before the root and inside the root start tag are all covered (each must report >= 1 error and close both channels; class stem truncated-before-root); %d larger documents (2..200 entries) damaged in or before a chosen entry: mismatched end tag, '< ' or '& ' in text, byte 0x01, missing </entry>, unterminated start tag, '<<' between entries, cut at a random offset; plain through Parse (capacities 0..100), gzip-compressed through Read, and gzip files cut at a random offset (expected entries = those wholly inside what the standard decompressor recovers); demanded: expected entries first and in order, >= 1 error (on the channel, or returned by Read), both channels closed; non-trivial = every case",
 			len(small), map[bool]string{true: "both consumers", false: "consumers alternating"}[thorough], nBig))
 	vT := newVerifRun("C20", "io/uniprot.Parse/terminates", common+"every case of the clauses entries, damaged-prefix and gzip: the consumer returns (both channels seen closed) before the deadline; non-trivial = every case")
-	vG := newVerifRun("C20", "io/uniprot.Read/post/gzip", common+"well-formed documents (k = 0..3 and every 8th k up to 200) gzip-compressed into a temp file and read through Read (capacities fixed by Read at 100/100); same demands as the entries clause; plus every k = 3 document of the large-number part of the entries clause (entry version up to "+strconv.Itoa(c20LargeVersions[len(c20LargeVersions)-1])+", sequence version, sequence length and mass, feature positions, evidence key; same classes); non-trivial = k >= 1")
+	vG := newVerifRun("C20", "io/uniprot.Read/post/gzip", common+"well-formed documents (k = 0..3 and every 8th k up to 200) gzip-compressed into a temp file and read through Read (capacities fixed by Read at 100/100); same demands as the entries clause; plus every k = 3 document of the large-number part of the entries clause (entry version up to "+strconv.Itoa(c20LargeVersions[len(c20LargeVersions)-1])+", sequence version, sequence length and mass, feature positions, evidence key; same classes) and every k = 3 document with all three dates set of the date part of the entries clause (classes leap-day-date, calendar-edge-date); "+
+		fmt.Sprintf("plus %d gzip files made of SEVERAL members (RFC 1952: a gzip file is a series of members and stands for the concatenation of their contents; pigz, bgzip and concatenated .gz parts look like this): well-formed documents of k in %s entries, the XML text split at byte positions and each piece written by its own gzip.Writer, the outputs concatenated: 2 members with the boundary after the first byte, inside the root start tag, right before an entry, right after entry 1, inside an entry; 4 members (before the first entry, after the last entry, before the last byte); 2..6 members at random byte offsets (two files per k); some with an additional member that holds no data at a random place; each file is first checked with the standard decompressor to stand for the document; all k entries demanded in order, both channels closed (class multi-member-gzip); ", nMulti, map[bool]string{true: "{1, 2, 3, 4, 5, 9, 20, 40, 100, 200}", false: "{1, 2, 3, 9, 40}"}[thorough])+
+		"non-trivial = k >= 1")
 	for _, v := range []*verifRun{vE, vD, vT, vG} {
 		v.Sampled()
 	}
@@ -950,6 +1100,8 @@ var (
 	c20LargeSeqVersions  = []int{256, 300}
 	c20LargeSeqLens      = []int{32768, 35213, 65536}
 	c20LargeEvidenceKeys = []int{256, 1000, 65536}
+	// dates of part (7): leap days (of years divisible by 4, and of 2000, which is divisible by 400), the days around them, month and year ends
+	c20Dates = []string{"2000-02-29", "2004-02-29", "1996-02-29", "2012-12-31", "2000-03-01", "1999-12-31", "1988-02-29", "2020-02-29", "2000-02-28", "2000-12-31", "2001-01-01", "1999-02-28", "2010-01-31", "2011-11-30"}
 )
 
 func c20Max(a, b int) int {
